@@ -2,10 +2,14 @@ SPECIFICATION Spec
 CONSTANTS
   MaskUpdated = TRUE
   MaxOps = 3
+  MaxRep = 3
   MaxPool = 3
   Sizes = {0, 1}
   MaxParts = 3
+  Fams = {"wf", "dup"}
+  Take = TRUE
+  Linear = FALSE
   Export = TRUE
 VIEW View
-INVARIANTS MaskExact DuplicateFree CompleteExact LastStepLegal Commutes Idempotent NoBugWhenMaskUpdated
+INVARIANTS MaskExact DuplicateFree CompleteExact LastStepLegal Commutes Idempotent ForeignInert NoBugWhenMaskUpdated
 ACTION_CONSTRAINT ExportT
